@@ -5,6 +5,8 @@ From GV Require Import Base.Result Gen.TokenTypes Gen.Defs Gen.Instr Model.Parse
   Spec.Depth Proofs.C05.Known Proofs.C05.Bounded Proofs.C06.Known Proofs.C06.DepthSound Proofs.C06.Dynamic
   Proofs.C06.Bounded Proofs.C06.Bounded7 Proofs.C06.Refuted Proofs.C06.Balanced Proofs.C06.BalancedBounded.
 From GV Require Import Proofs.C06.Statements Proofs.C06.StaticFull Proofs.Builder.Transport.
+From GV Require Spec.Pratt.
+From GV Require Import Proofs.C06.OperatorBalanced.
 Import ListNotations.
 
 (* ---- static half: the checker ---- *)
@@ -69,6 +71,58 @@ Theorem C06_static_full_parsed : forall toks root nodes,
        exists d, typed p d /\ ends_at_one p d /\ exists e, pjump p (snd r) = Some e /\ d e = Some (0, 0)).
 Proof. exact C06_static_full_parsed_proof. Qed.
 Print Assumptions C06_static_full_parsed.
+
+(* ---- the operator fragment, unbounded ---- *)
+(* For EVERY token list on which the reference precedence-climbing parser of C02
+   (Spec/Pratt.v: values, prefix / suffix / binary operators of every rank,
+   `?>` `!>` `|>`, `&&` `||`, `.`, apply forms, comma and implicit space lists,
+   round brackets to any depth, whitespace; C02_full) is defined: parse accepts,
+   and unless the tree is in finding class C06-K1 (else-chain without final
+   else), C06-K3 (`^~` with something pending) or C06-K4 (a non-conditional before
+   `|>`) -- the chain classes read at the head of a chain -- the tree keeps the
+   arity discipline, hence every program BuilderWL.build emits for it, into any
+   data object, is typable, ends every expression at depth one and is entered at
+   (0, 0).  No bound on length or nesting; C06-K2 (an operand position without a
+   value) cannot occur in the fragment. *)
+Theorem C06_balanced_operator_expressions : forall toks R, Pratt.pratt toks = Some R ->
+  exists root nodes t,
+    parse toks = Ok (root, nodes) /\ Compile.tree_of nodes root = Some t /\
+    (~ Known_C06_K1 t -> ~ Known_C06_K3 t -> ~ Known_C06_K4 t ->
+     balanced t = true /\
+     forall init lit fuel r, build nodes init lit fuel root = Ok r ->
+       let p := prog_of_build init r in
+       exists d, typed p d /\ ends_at_one p d /\ exists e, pjump p (snd r) = Some e /\ d e = Some (0, 0)).
+Proof. exact C06_balanced_operator_expressions_proof. Qed.
+Print Assumptions C06_balanced_operator_expressions.
+
+(* ... and a conditional is never the left operand of && / || there (the class
+   C05-K2 of the well-formedness theorems is outside the fragment): operators
+   taken later bind no tighter than the root of what they extend *)
+Theorem C06_operator_expressions_no_K2 : forall toks R, Pratt.pratt toks = Some R ->
+  exists root nodes t, parse toks = Ok (root, nodes) /\ Compile.tree_of nodes root = Some t /\ drops_arms t = false.
+Proof. exact C06_operator_expressions_no_K2_proof. Qed.
+Print Assumptions C06_operator_expressions_no_K2.
+
+(* non-vacuity: `a ?> b + 1 |> c !> d * 2 |> (e, f).g && h` (22 tokens): the reference
+   parser is defined, the tree is in no finding class, it is balanced, and the
+   built program is typable *)
+Example C06_ex_operator_expression :
+  let toks := [TT_Identifier; TT_JumpIfTrue; TT_Identifier; TT_PlusSign; TT_Number; TT_ElseJump;
+               TT_Identifier; TT_JumpIfFalse; TT_Identifier; TT_MultiplicationSign; TT_Number; TT_ElseJump;
+               TT_StartGroup; TT_Identifier; TT_Comma; TT_Identifier; TT_EndGroup; TT_Period; TT_Identifier;
+               TT_Whitespace; TT_And; TT_Identifier] in
+  (match Pratt.pratt toks with Some _ => true | None => false end) = true /\
+  match parse toks with
+  | Ok (root, nodes) =>
+    match Compile.tree_of nodes root, build nodes empty_init lit_all (build_fuel nodes) root with
+    | Some t, Ok r =>
+      c06_known_b t = false /\ balanced t = true /\
+      match infer_depths (prog_of_build empty_init r) with Some _ => true | None => false end = true
+    | _, _ => False
+    end
+  | _ => False
+  end.
+Proof. vm_compute. repeat split; reflexivity. Qed.
 
 (* every accepted program without a bare `;;` and outside C06-K1..K4 keeps the
    discipline (bounded: the trees the parser produces from these inputs) *)
